@@ -238,6 +238,63 @@ PATTERNS = {
     "late_use_of_early_recv": (pat_late_use_of_early_recv, (2,)), "diamond": (pat_diamond, (3,)),
     "three_rounds": (pat_three_rounds, (2,)), "three_rounds_one_way": (pat_three_rounds_one_way, (2,)),
 }
+def _gen_pattern(seed, k):
+    """random layered communication pattern (deterministic in seed, k): 2 ranks with <= 5 or 3 ranks with <= 3 messages
+    in 1-3 layers.  A
+    message of layer l depends on x and on a random subset of what its sender received in earlier layers (so the
+    global graph is acyclic by construction); everything received is used in the receiver's output."""
+    import random as _random
+    rnd = _random.Random(9000 + 131 * seed + k)
+    size = rnd.choice([2, 2, 3])
+    nlayers = rnd.randint(1, 3)
+    msgs = []          # (layer, src, dst, tag)
+    tag = 60
+    for layer in range(nlayers):
+        pairs = [(a, b) for a in range(size) for b in range(size) if a != b]
+        rnd.shuffle(pairs)
+        for (a, b) in pairs[:rnd.randint(1, 2)]:
+            if len(msgs) < (5 if size == 2 else 3):         # (3 ranks with 5 messages: > 1000 schedules, 10-20 min)
+                msgs.append((layer, a, b, tag))
+                tag += 1
+    deps = {}
+    for (layer, a, b, t) in msgs:
+        earlier = [m for m in msgs if m[2] == a and m[0] < layer]
+        deps[t] = [m[3] for m in earlier if rnd.random() < 0.6]
+    silent_use = rnd.random() < 0.3      # some received values are used only in the output, late
+
+    def pat(rank, size_, pt):
+        x = _x(pt)
+        recvs = {m[3]: pt.make_distributed_recv(src_rank=m[1], comm_tag=m[3], shape=(3,), dtype=F64) for m in msgs if m[2] == rank}
+        res = x * (rank + 1)
+        for j, t in enumerate(sorted(recvs)):
+            res = res + recvs[t] * (j + 2) if not (silent_use and j == 0) else res - recvs[t]
+        for (layer, a, b, t) in msgs:
+            if a == rank:
+                payload = x * (t - 58)
+                for d in deps[t]:
+                    payload = payload + recvs[d]
+                res = pt.staple_distributed_send(payload, b, t, stapled_to=res)
+        return {"out": res}
+    pat.__doc__ = f"generated: {size} ranks, messages {msgs}, dependencies {deps}"
+    return pat, size
+
+
+class _Patterns(dict):
+    def __missing__(self, name):
+        if name.startswith("gen"):
+            seed, k = (int(v) for v in name[3:].split("_"))
+            pat, size = _gen_pattern(seed, k)
+            return (pat, (size,))
+        raise KeyError(name)
+
+
+PATTERNS = _Patterns(PATTERNS)
+
+
+def generated_patterns(seed, n):
+    return [(f"gen{seed}_{k}", _gen_pattern(seed, k)[1]) for k in range(n)]
+
+
 QUICK = [("single", 1), ("exchange2", 2), ("ring", 2), ("ring", 3), ("star", 2), ("chain", 2), ("chain", 3),
          ("multi_send", 2), ("forward_only", 3), ("outputs_are_inputs", 2), ("materialized", 2), ("two_way_dependent", 2),
          ("ring_2rounds", 2), ("late_use_of_early_recv", 2), ("diamond", 3), ("three_rounds", 2),
@@ -334,13 +391,16 @@ def _partition(pattern, size):
 
     def per_rank(comm):
         outs = build(comm.rank, comm.size, pt)
-        dag = pt.make_dict_of_named_arrays(outs)
+        dag = pt.transform.deduplicate(pt.make_dict_of_named_arrays(outs))    # (mappers refuse structural duplicates)
         part = pt.find_distributed_partition(comm, dag)
         return dag, part
     res = dist.run_collective(size, per_rank)
-    for st, v in res:
-        if st != "ok":
-            raise v
+    import threading
+    errs = [v for st, v in res if st != "ok"]
+    if errs:
+        # (a rank that fails breaks the barrier for the others: report the primary error, not the BrokenBarrierError)
+        prim = [v for v in errs if not isinstance(v, threading.BrokenBarrierError)]
+        raise (prim or errs)[0]
     return [v[0] for _, v in res], [v[1] for _, v in res]
 
 
@@ -466,8 +526,9 @@ def schedule_job(pattern: str, size: int) -> JobOut:
 
 def jobs(tier: str, seed: int):
     th = tier == "thorough"
+    pats = list(THOROUGH if th else QUICK) + generated_patterns(seed, 16 if th else 4)
     J = [Job(MOD, "schedule_job", {"pattern": p, "size": s}, jid=f"{p}/{s}", hard_timeout=2400)
-         for p, s in (THOROUGH if th else QUICK)]
+         for p, s in pats]
     meta = {
         "programs": len(J),
         "explanation": "Model checking of the real executor against a simulated message layer: the schedule (Waitsome "
@@ -475,7 +536,8 @@ def jobs(tier: str, seed: int):
                        "each path runs the real execute_distributed_partition on every rank, checks termination, absence "
                        "of deadlock/KeyError/assertion failures, exactly-once matching of messages, and compares every "
                        "output at a symbolic index over uninterpreted inputs with the unpartitioned global graph.",
-        "bounds": {"patterns": sorted({p for p, _ in (THOROUGH if th else QUICK)}), "ranks": "1..3 (quick) / ..4 (thorough)",
+        "bounds": {"patterns": sorted({p for p, _ in pats}), "generated patterns": "random layered patterns, 2-3 ranks, <= 3 layers, "
+                   "<= 5 messages (4 quick / 16 thorough, deterministic in the seed)", "ranks": "1..3 (quick) / ..4 (thorough)",
                    "communication ops": "<= 6", "schedules": "all, for these instances (per-path exploration)"},
         "outside": ["real MPI progress semantics beyond Waitsome's contract", "patterns with more schedules than the "
                     "budget allows (not claimed; star with 4 ranks did not finish in 25 minutes and is left out)", "generated code for the parts (parts are evaluated with eval_pytato; "
